@@ -1,5 +1,6 @@
 import HqModel.Base.Proto
 import HqModel.Sched.Box
+import HqModel.Sched.Spec
 /-! Driver of the scheduling-decision model (component `sched`, property C15), see /verif/FRAMEWORK.md.
 
 Ops of a case: `worker`, `class`, `queue` build the instance as the harness read it back from the real core;
@@ -128,6 +129,7 @@ def schedule (s : St) (status : String) : List String :=
     s!"out objective {obj} best {match best with | some b => toString b | none => "-"}",
     s!"out optimal {if optimal then 1 else 0}",
     s!"out frag {frag}",
+    s!"out spec {if batchesSpecB inst bs then 1 else 0}",
     s!"out c15 {if ok then "ok" else "violated"}"]
   let mon :=
     if !ok && status == "done" then
